@@ -799,6 +799,53 @@ func seqCase(rng *hutil.Rng, malformed bool) *c14case {
 	return r.cs
 }
 
+// ---------------------------------------------------------------- all reply orders for n callers in flight
+func permutations(n int) [][]int {
+	if n == 0 {
+		return [][]int{{}}
+	}
+	var out [][]int
+	for _, p := range permutations(n - 1) {
+		for pos := 0; pos <= len(p); pos++ {
+			q := append(append(append([]int{}, p[:pos]...), n-1), p[pos:]...)
+			out = append(out, q)
+		}
+	}
+	return out
+}
+
+// permCase: n callers in flight, replies in the given order; with dup every reply
+// is delivered twice, the second copies after all first copies (stragglers)
+func permCase(rng *hutil.Rng, n int, order []int, dup bool) *c14case {
+	t0 := time.Now()
+	c0, h0 := pickStart(rng)
+	r := newRunner("perm", c0, h0)
+	reg := r.open()
+	r.reply(reg.id)
+	var ws []*waiterInfo
+	for i := 0; i < n; i++ {
+		ws = append(ws, r.send(true, false))
+	}
+	r.obs()
+	for _, i := range order {
+		r.reply(ws[i].id)
+		r.obs()
+	}
+	if dup {
+		for _, i := range order {
+			r.reply(ws[i].id)
+		}
+		r.obs()
+	}
+	r.endChecks(true)
+	r.fresh()
+	r.endChecks(true)
+	r.finalOut()
+	r.handler.OnClose(r.sess)
+	r.cs.Secs = time.Since(t0).Seconds()
+	return r.cs
+}
+
 // ---------------------------------------------------------------- concurrent histories
 // n callers at once, replies from separate goroutines in any order, with delays
 // and duplicates; the recorded history is a witness linearisation (sends in id
@@ -1137,6 +1184,15 @@ func Run14(args map[string]string) {
 		}
 		for i := 0; i < nseq && failing() < 3; i++ {
 			cases = append(cases, seqCase(rng.Fork(uint64(i)), i%5 == 4))
+		}
+		// exhaustive: every order of the replies for up to maxperm callers in flight
+		for n := 1; n <= hutil.ArgInt(args, "maxperm", 3); n++ {
+			for pi, order := range permutations(n) {
+				if failing() >= 3 {
+					break
+				}
+				cases = append(cases, permCase(rng.Fork(uint64(50000+100*n+pi)), n, order, pi%2 == 1))
+			}
 		}
 		sizes := []int{1, 2, 8, 64}
 		nconc := hutil.ArgInt(args, "nconc", 8)
